@@ -907,6 +907,10 @@ class Engine:
                 sym, lit = (a, b) if a.v is None else (b, a)
                 return self.streq(sym, lit.v, st)
             if n == 'real': return self.to_real(args[0])
+            if n == 'samerow':      # two sequence values are the same value (same array term, same length)
+                a_, b_ = args
+                if not (isinstance(a_, Seq) and isinstance(b_, Seq)): raise E2Error('samerow(seq, seq) expected')
+                return z3.And(a_.arr == b_.arr, a_.n == b_.n)
             if n == 'summary':
                 # summary("Callee", k, args...): the value of the pure callee applied to the k-th lambda of this function (which may
                 # capture only callbacks) and the given scalar arguments -- the term a contract call with that lambda produces
@@ -1960,6 +1964,7 @@ class Verifier(Engine):
         saved_scope, saved_lo = st.scope, st.loop_old
         st.scope = L.scope; st.loop_old = dict(st.env)
         self.loops_seen.add(L.ordinal)
+        for u in ls.uses_base: self.use_lemma(u, st)
         for inv in ls.invariants:
             if inv.engines and 'E2' not in inv.engines: continue
             self.check_clause(inv, st, 'loop%d.invariant_base' % L.ordinal)
@@ -1979,6 +1984,7 @@ class Verifier(Engine):
         paths = self.exec_block(L.body, b)
         for p, status, rv in paths:
             if status in ('normal', 'continue'):
+                for u in ls.uses_end: self.use_lemma(u, p)
                 for q, s2, _ in self.exec_block(L.step, p):
                     q.scope = L.scope
                     for inv in ls.invariants:
@@ -1995,7 +2001,7 @@ class Verifier(Engine):
                 out.append((p, 'normal', None))
             else:
                 out.append((p, status, rv))
-        if self.feasible(ex, z3.BoolVal(True)):
+        if not z3.is_true(z3.simplify(c)) and self.feasible(ex, z3.BoolVal(True)):
             if sum_terms:
                 ex.scope = L.scope
                 for vn, term in sum_terms: ex.assume(self.sv(SP.X('name', name=vn), ex) == term)
